@@ -803,14 +803,17 @@ impl Visitor for ScopeVisitor {
     }
 
     fn visit_local_assignment(&mut self, local_assignment: &ast::LocalAssignment) {
+        // The new locals are only in scope after the statement: every initialiser is read before any name is defined
+        for expression in local_assignment.expressions() {
+            self.read_expression(expression);
+        }
+    }
+
+    fn visit_local_assignment_end(&mut self, local_assignment: &ast::LocalAssignment) {
         let mut expressions = local_assignment.expressions().iter();
 
         for name_token in local_assignment.names() {
             let expression = expressions.next();
-
-            if let Some(expression) = expression {
-                self.read_expression(expression);
-            }
 
             self.define_name_full_with_variable(
                 &name_token.token().to_string(),
